@@ -188,4 +188,11 @@ def rules(t):
     out = _rules_c16(t)
     out.append(reader_refusals(t))
     out.append(shared.range_algebra(t, "C16.f"))
+    rr = RuleResult("C16.g", "an ack packet carries the newest ranges: every growth of pending_acks is followed by the trim to the cap (shared with C13.a1)", floor=1)
+    import rules.C13 as C13
+    for x in C13.rules(t):
+        if x.id == "C13.a1":
+            rr.sites += x.sites
+            for v in x.violations: rr.bad(v.key, v.site, v.msg)
+    out.append(rr)
     return out
